@@ -538,6 +538,28 @@ def np_linspace(ctx, start, stop, num=50):
     return Arr.from_fn((num,), 'float', fn)
 
 
+QUAD = z3.Function('quad_integral', z3.IntSort(), z3.RealSort(), z3.RealSort(), z3.RealSort())
+
+
+@lib('scipy.integrate.quad', 'abstract')
+def sp_quad(ctx, func, a, b, *args, **kw):
+    """Abstract numerical quadrature: an uninterpreted function of (integrand identity, lower, upper limit);
+    the call is recorded.  The integrand is not called."""
+    calls = ctx.__dict__.setdefault('ghost_quad_calls', [])
+    ident = ctx.fresh_int('integrand')
+    val = QUAD(ident, S.zreal(A.unwrap0(a)), S.zreal(A.unwrap0(b)))
+    calls.append({'func': func, 'a': A.unwrap0(a), 'b': A.unwrap0(b), 'value': val})
+    return (val, ctx.fresh_real('quad_abserr'))
+
+
+@lib('numpy.broadcast_arrays')
+def np_broadcast_arrays(ctx, *arrays):
+    """Each argument broadcast to the common shape (ValueError when the shapes are incompatible)."""
+    items = [arr(ctx, a) for a in arrays]
+    shape = A.broadcast_shapes(ctx, [a.shape for a in items])
+    return PyList([np_broadcast_to(ctx, a, tuple(shape)) for a in items])
+
+
 @lib('numpy.broadcast_to')
 def np_broadcast_to(ctx, v, shape):
     a = arr(ctx, v)
